@@ -16,12 +16,14 @@ def run_seed(verif_seed, prop, run_index):
 
 
 class Choices:
-    __slots__ = ("_rng", "_rec", "_pos", "record", "seed", "overrun")
+    __slots__ = ("_rng", "_rec", "_pos", "record", "seed", "overrun", "marks", "count_pos")
 
     def __init__(self, seed=None, recorded=None):
         self.seed = seed
         self.record = []
         self.overrun = 0
+        self.marks = []        # positions in `record` where a self-contained unit (one operation) starts
+        self.count_pos = None  # position of the draw that decided how many units there are
         if recorded is not None:
             self._rng = None
             self._rec = list(recorded)
@@ -50,6 +52,15 @@ class Choices:
             self._pos += 1
         self.record.append(v)
         return v
+
+    def mark(self):
+        """The draws from here to the next mark describe one self-contained operation: the
+        shrinker may delete the whole span (and lower the unit count) in one step."""
+        self.marks.append(len(self.record))
+
+    def mark_count(self):
+        """The draw just made decided the number of units."""
+        self.count_pos = len(self.record) - 1
 
     # -- conveniences (all built on draw) ---------------------------------------
     def chance(self, num, den=100):
